@@ -160,6 +160,8 @@ pub enum Waiters {
 	Single,
 	/// waiter tasks are created only at the end of the steps
 	Late,
+	/// a waiter polls its ticket once while it is pending, then clones it and hands the clone to a second task
+	PollThenClone,
 }
 
 impl Waiters {
@@ -169,12 +171,14 @@ impl Waiters {
 			Waiters::Clones(k) => format!("clones-{k}"),
 			Waiters::Single => "single".into(),
 			Waiters::Late => "late".into(),
+			Waiters::PollThenClone => "poll-then-clone".into(),
 		}
 	}
 	pub fn from_name(s: &str) -> Self {
 		match s {
 			"single" => Waiters::Single,
 			"late" => Waiters::Late,
+			"poll-then-clone" => Waiters::PollThenClone,
 			s if s.starts_with("clones-") => Waiters::Clones(s[7..].parse().unwrap_or(2)),
 			_ => Waiters::TaskPerTicket,
 		}
